@@ -47,6 +47,7 @@ type Sent struct {
 	CtrlEv     int
 	Ctrl       *MsgServerCtrl
 	TimedOut   bool
+	Detached   bool // a {set} sent while this client was not attached to the topic it names
 }
 
 // SimClient is one client connection slot (it may reconnect: Conn counts connections).
@@ -345,6 +346,9 @@ func (c *SimClient) send(op *Op, msg *ClientComMessage) *Sent {
 	c.Sents = append(c.Sents, s)
 	if s.Id != "" {
 		c.byID[s.Id] = s
+	}
+	if msg != nil && msg.Set != nil && !c.Attached[msg.Set.Topic] {
+		s.Detached = true
 	}
 	w.rt.Logf("send c%d %s", c.Idx, canon(msg))
 	if !c.Connected {
